@@ -96,6 +96,10 @@ fn main() {
             }
             rep.finish()
         }
+        "C15" => {
+            umverif::c15::run(&mut rep);
+            rep.finish()
+        }
         _ => {
             eprintln!("property {} has no check in this build", property);
             2
